@@ -1,0 +1,117 @@
+//go:build verif
+
+// Contracts for package store (DefaultStore over go-datastore), read by /verif/bin/gocv.
+// Comment-only. The abstraction function to the Store model of libspec/10_store.spec:
+// height = le64dec(kv[HeightKey]) (0 if absent), block h = the records under KeyHdr(h),
+// KeyData(h), KeySig(h), index KeyIdx(hash) -> le64(h), state = kv[StateKey], metadata k = kv[KeyMeta(k)].
+package store
+
+// the seven record kinds have different prefixes (ground obligation on the constants) ...
+//@ distinct headerPrefix dataPrefix signaturePrefix statePrefix metaPrefix indexPrefix heightPrefix property C14
+// ... and GenerateKey / strconv.FormatUint / path.Clean are injective on slash-free components
+// (assumed), so the key functions are injective and their ranges are disjoint (keyKind):
+//@ spec func KeyHdr(Int) Str injective
+//@ spec func KeyData(Int) Str injective
+//@ spec func KeySig(Int) Str injective
+//@ spec func KeyIdx(Str) Str injective
+//@ spec func KeyMeta(Str) Str injective
+//@ spec func KeyHeight() Str
+//@ spec func KeyState() Str
+//@ spec func keyKind(Str) Int
+//@ func getHeaderKey(height) (r)
+//@   trusted
+//@   ensures [key] r == KeyHdr(height) && keyKind(r) == 1
+//@ func getDataKey(height) (r)
+//@   trusted
+//@   ensures [key] r == KeyData(height) && keyKind(r) == 2
+//@ func getSignatureKey(height) (r)
+//@   trusted
+//@   ensures [key] r == KeySig(height) && keyKind(r) == 3
+//@ func getStateKey() (r)
+//@   trusted
+//@   ensures [key] r == KeyState() && keyKind(r) == 4
+//@ func getMetaKey(key) (r)
+//@   trusted
+//@   ensures [key] r == KeyMeta(key) && keyKind(r) == 5
+//@ func getIndexKey(hash) (r)
+//@   trusted
+//@   ensures [key] r == KeyIdx(hexstr(val(hash))) && keyKind(r) == 6
+//@ func getHeightKey() (r)
+//@   trusted
+//@   ensures [key] r == KeyHeight() && keyKind(r) == 7
+
+//@ pred AbsHeight(s) := ite(s.db.kvHas[dskey(KeyHeight())], le64dec(s.db.kv[dskey(KeyHeight())]), 0)
+
+//@ func encodeHeight(height) (r)
+//@   property C14
+//@   nopanic
+//@   ensures [encode] val(r) == le64(height) && len(r) == 8
+//@ func decodeHeight(heightBytes) (h, err)
+//@   property C14
+//@   nopanic
+//@   ensures [length-checked] err == nil <==> len(heightBytes) == 8
+//@   ensures [decode] err == nil ==> h == le64dec(val(heightBytes))
+
+//@ func (s *DefaultStore) Height(ctx) (h, err)
+//@   property C14
+//@   requires [wiring] s.db != nil
+//@   ensures [refines] err == nil ==> h == AbsHeight(s) || (s.db.kvHas[dskey(KeyHeight())] && blen(s.db.kv[dskey(KeyHeight())]) != 8)
+//@   ensures [zero-when-absent] !s.db.kvHas[dskey(KeyHeight())] && err == nil ==> h == 0
+
+//@ func (s *DefaultStore) SetHeight(ctx, height) (err)
+//@   property C14
+//@   requires [wiring] s.db != nil
+//@   requires [well-formed] s.db.kvHas[dskey(KeyHeight())] ==> blen(s.db.kv[dskey(KeyHeight())]) == 8
+//@   modifies durable s.db.kv[dskey(KeyHeight())], durable s.db.kvHas[dskey(KeyHeight())], durable s.db.size
+//@   ensures [monotone-height] err == nil ==> AbsHeight(s) == max(old(AbsHeight(s)), height)
+//@   ensures [fail-no-effect] err != nil ==> AbsHeight(s) == old(AbsHeight(s))
+//@   ensures [stays-well-formed] s.db.kvHas[dskey(KeyHeight())] ==> blen(s.db.kv[dskey(KeyHeight())]) == 8
+
+//@ func (s *DefaultStore) SetMetadata(ctx, key, value) (err)
+//@   property C14
+//@   requires [wiring] s.db != nil
+//@   modifies durable s.db.kv[dskey(KeyMeta(key))], durable s.db.kvHas[dskey(KeyMeta(key))], durable s.db.size
+//@   ensures [last-write-wins] err == nil ==> s.db.kvHas[dskey(KeyMeta(key))] && s.db.kv[dskey(KeyMeta(key))] == val(value)
+//@   ensures [fail-no-effect] err != nil ==> s.db.kv[dskey(KeyMeta(key))] == old(s.db.kv[dskey(KeyMeta(key))]) && s.db.kvHas[dskey(KeyMeta(key))] == old(s.db.kvHas[dskey(KeyMeta(key))])
+
+//@ func (s *DefaultStore) GetMetadata(ctx, key) (value, err)
+//@   property C14
+//@   requires [wiring] s.db != nil
+//@   ensures [reads-what-was-written] err == nil ==> s.db.kvHas[dskey(KeyMeta(key))] && val(value) == s.db.kv[dskey(KeyMeta(key))]
+//@   ensures [absent] !s.db.kvHas[dskey(KeyMeta(key))] ==> err != nil
+
+//@ func (s *DefaultStore) SaveBlockData(ctx, header, data, signature) (err)
+//@   property C14
+//@   requires [wiring] s.db != nil && header != nil && data != nil && signature != nil
+//@   observe bt := call Batch
+//@   observe put := call Put
+//@   observe cm := call Commit
+//@   modifies durable s.db.kv, durable s.db.kvHas, durable s.db.size
+//@   ensures [atomic-save] err == nil ==> bt.count == 1 && cm.count == 1 && put.count == 4 && cm.arg0 == bt.res0 && put.arg0 == bt.res0
+//@   ensures [records] err == nil ==> s.db.kvHas[dskey(KeyHdr(header.BaseHeader.Height))] && s.db.kvHas[dskey(KeyData(header.BaseHeader.Height))]
+//@                       && s.db.kvHas[dskey(KeySig(header.BaseHeader.Height))] && s.db.kv[dskey(KeySig(header.BaseHeader.Height))] == val(*signature)
+//@                       && s.db.kvHas[dskey(KeyIdx(hexstr(HashHdr(HdrOf(header)))))] && s.db.kv[dskey(KeyIdx(hexstr(HashHdr(HdrOf(header)))))] == le64(header.BaseHeader.Height)
+//@   ensures [other-kinds-untouched] forall k :: keyKind(dskeyInv(k)) != 1 && keyKind(dskeyInv(k)) != 2 && keyKind(dskeyInv(k)) != 3 && keyKind(dskeyInv(k)) != 6
+//@                       ==> s.db.kv[k] == old(s.db.kv[k]) && s.db.kvHas[k] == old(s.db.kvHas[k])
+//@   ensures [fail-no-effect] err != nil ==> s.db.kv == old(s.db.kv) && s.db.kvHas == old(s.db.kvHas)
+//@   crash_inv [all-or-nothing] (s.db.kv == old(s.db.kv) && s.db.kvHas == old(s.db.kvHas)) || (s.db.kvHas[dskey(KeyHdr(header.BaseHeader.Height))] && s.db.kvHas[dskey(KeyData(header.BaseHeader.Height))]
+//@                       && s.db.kvHas[dskey(KeySig(header.BaseHeader.Height))] && s.db.kvHas[dskey(KeyIdx(hexstr(HashHdr(HdrOf(header)))))])
+//@ pred dskeyInv(k) := dskeyInverse(k)
+
+//@ func (s *DefaultStore) GetSignature(ctx, height) (sig, err)
+//@   property C14
+//@   requires [wiring] s.db != nil
+//@   ensures [sig-with-block] err == nil ==> sig != nil && s.db.kvHas[dskey(KeySig(height))] && val(*sig) == s.db.kv[dskey(KeySig(height))]
+
+//@ func (s *DefaultStore) getHeightByHash(ctx, hash) (h, err)
+//@   property C14
+//@   requires [wiring] s.db != nil
+//@   ensures [by-hash] err == nil ==> s.db.kvHas[dskey(KeyIdx(hexstr(val(hash))))] && h == le64dec(s.db.kv[dskey(KeyIdx(hexstr(val(hash))))])
+
+//@ func (s *DefaultStore) UpdateState(ctx, state) (err)
+//@   property C14
+//@   requires [wiring] s.db != nil
+//@   observe put := call Put
+//@   modifies durable s.db.kv[dskey(KeyState())], durable s.db.kvHas[dskey(KeyState())], durable s.db.size
+//@   ensures [one-write] put.count <= 1
+//@   ensures [written] err == nil ==> s.db.kvHas[dskey(KeyState())]
